@@ -239,7 +239,7 @@ impl Property for C01 {
         Ok(())
     }
     fn health(&self, st: &Stats, _quick: bool) -> Result<(), String> {
-        let total = st.evaluations.max(1);
+        let total = (st.labels.get("stage:random").copied().unwrap_or(0) + st.labels.get("stage:enumerated").copied().unwrap_or(0)).max(1);
         let so = st.labels.get("outcome:rejected-for-signature-only").copied().unwrap_or(0);
         if so * 10 < total {
             return Err(format!("signature-only rejects {so}/{total} < 10%"));
